@@ -436,15 +436,14 @@ def loss_class_ops():
         def build(D, gen):
             # well separated targets (lattice sites + jitter) and sources near distinct targets: the closest-point assignment
             # is stable under the finite-difference step (these losses cast to float32: step 4e-3)
+            sites = torch.stack(torch.meshgrid(*[torch.arange(3, dtype=DT)] * D, indexing="ij"), -1).reshape(-1, D)
+            picks = [torch.randperm(sites.shape[0], generator=gen)[:7] for _ in range(2)]   # per batch item, shared by all targets
+
             def cloud(n):
-                sites = torch.stack(torch.meshgrid(*[torch.arange(3, dtype=DT)] * D, indexing="ij"), -1).reshape(-1, D)
-                out = []
-                for _ in range(2):
-                    idx = torch.randperm(sites.shape[0], generator=gen)[:n]
-                    out.append(sites[idx] + rnd(gen, n, D) * 0.05)
-                return torch.stack(out)
+                return torch.stack([sites[picks[b][:n]] + rnd(gen, n, D) * 0.05 for b in range(2)])
+            # every target set holds (a jittered copy of) the site each source point sits next to: the closest point is unambiguous
             ys = [cloud(5 if same_count else 7).requires_grad_(True) for _ in range(2)]
-            off = rnd(gen, 2, 5, D, lo=0.12, hi=0.25) * torch.where(rnd(gen, 2, 5, D) < 0, -1.0, 1.0)
+            off = rnd(gen, 2, 5, D, lo=0.2, hi=0.28) * torch.where(rnd(gen, 2, 5, D) < 0, -1.0, 1.0)
             x = (ys[0].detach()[:, :5] + off).requires_grad_(True)
             loss = mk()
             return (lambda: loss(x, *ys)), [x] + ys
